@@ -405,12 +405,29 @@ def compare(op, l, r):
     if isinstance(l, SDateTime) and isinstance(r, SDateTime):
         a, b = l.secs * 1000000 + l.micros, r.secs * 1000000 + r.micros
         return wrap_bool({ast.Lt: a < b, ast.LtE: a <= b, ast.Gt: a > b, ast.GtE: a >= b}[op])
+    if isinstance(l, (tuple, list)) and isinstance(r, (tuple, list)) and type(l) is type(r) and \
+            (V.is_symbolic(l) or V.is_symbolic(r)):
+        return lex_compare(op, list(l), list(r))
     if V.is_symbolic(l) or V.is_symbolic(r):
         raise E.Unsupported('compare %s on %s, %s' % (op.__name__, type(l).__name__, type(r).__name__))
     try:
         return _PYCMP[op](l, r)
     except Exception as e:
         raise E.PyRaise(mk_exc(type(e), *e.args))
+
+
+def lex_compare(op, l, r):
+    """lexicographic order of equal-type sequences of comparable elements (Python's tuple/list ordering)"""
+    strict = op in (ast.Lt, ast.Gt)
+    if op in (ast.Gt, ast.GtE):
+        l, r = r, l
+    # l < r (or <=)
+    acc = z3.BoolVal(len(l) < len(r)) if strict else z3.BoolVal(len(l) <= len(r))     # all common elements equal
+    for a, b in reversed(list(zip(l, r))):
+        lt = bool_expr(compare(ast.Lt, a, b))
+        eq = bool_expr(eq_values(a, b))
+        acc = z3.Or(lt, z3.And(eq, acc))
+    return wrap_bool(acc)
 
 
 def not_value(v):
